@@ -6,13 +6,16 @@ From SG Require Export Base.Prelude C11.Atomicity.
 Inductive pstate := SUnchanged | SCommitted | SOther | SLost.
 
 Inductive case :=
-(* trace, indexes of the faulted operations, CAS-mismatch mode (the caller retries), whether the un-faulted
-   request succeeds, the observed result, the observed primary state *)
-| CFault (tr : list opclass) (k : list nat) (casmode : bool) (expect_success : bool) (r : result) (s : pstate)
+(* trace, indexes of the faulted operations ([]: the un-faulted run), CAS-mismatch mode (the caller retries),
+   whether the un-faulted request succeeds, the observed result, the observed primary state, and [a]: an auxiliary
+   document (out-of-line revision body, attachment) that the stored state BEFORE the request referenced is gone or
+   altered afterwards *)
+| CFault (tr : list opclass) (k : list nat) (casmode : bool) (expect_success : bool) (r : result) (s : pstate) (a : bool)
 (* a request with several commits: cont (bulk: every sub-request runs and reports) or aborting; one trace per
    sub-request; GLOBAL indexes of the faulted operations; the observed results (cont: one per sub-request;
-   aborting: the single result of the request) and the observed state of every sub-request's keys *)
-| CMulti (cont : bool) (trs : list (list opclass)) (k : list nat) (rs : list result) (ss : list pstate).
+   aborting: the single result of the request), the observed state of every sub-request's keys and, per
+   sub-request, whether an auxiliary document its keys referenced is gone *)
+| CMulti (cont : bool) (trs : list (list opclass)) (k : list nat) (rs : list result) (ss : list pstate) (aa : list bool).
 
 Definition result_eqb (a b : result) : bool := match a, b with ROk, ROk | RErr, RErr => true | _, _ => false end.
 Definition pstate_eqb (a b : pstate) : bool :=
@@ -31,8 +34,12 @@ Definition drop_reads (tr : list opclass) (k : list nat) : list nat := filter (f
 Definition model_state (m : sys) : pstate :=
   if committed m then (match lost m with [] => SCommitted | _ => SLost end) else SUnchanged.
 
-Definition matches (m : sys * result) (r : result) (s : pstate) : bool :=
-  result_eqb r (snd m) && pstate_eqb s (model_state (fst m)).
+Definition matches (m : sys * result) (r : result) (s : pstate) (a : bool) : bool :=
+  result_eqb r (snd m) && pstate_eqb s (model_state (fst m)) && Bool.eqb a (aux_deleted (fst m)).
+(* after a TOLERATED failed read the code may skip the clean-up the read was for (the body of the ancestor to back
+   up could not be loaded: it stays where it is); it never deletes more than predicted *)
+Definition matches_tol (m : sys * result) (r : result) (s : pstate) (a : bool) : bool :=
+  result_eqb r (snd m) && pstate_eqb s (model_state (fst m)) && implb a (aux_deleted (fst m)).
 
 Fixpoint matches_states (out : list (sys * result)) (ss : list pstate) : bool :=
   match out, ss with
@@ -47,24 +54,36 @@ Fixpoint matches_results (out : list (sys * result)) (rs : list result) : bool :
   | _, _ => false
   end.
 
-Definition multi_matches (cont : bool) (trs : list (list opclass)) (k : list nat) (rs : list result) (ss : list pstate) : bool :=
+Fixpoint matches_aux (tol : bool) (out : list (sys * result)) (aa : list bool) : bool :=
+  match out, aa with
+  | [], [] => true
+  | m :: out', a :: aa' => (if tol then implb a (aux_deleted (fst m)) else Bool.eqb a (aux_deleted (fst m))) && matches_aux tol out' aa'
+  | _, _ => false
+  end.
+
+Definition multi_matches (tol : bool) (cont : bool) (trs : list (list opclass)) (k : list nat) (rs : list result) (ss : list pstate) (aa : list bool) : bool :=
   let out := run_multi cont trs k in
-  matches_states out ss &&
+  matches_states out ss && matches_aux tol out aa &&
   (if cont then matches_results out rs
    else match rs with [r] => result_eqb r (overall out) | _ => false end).
 
+(* the hypothesis of the clean-up theorems, tested on every observed trace: no clean-up before the commit *)
+Definition wf_trace (tr : list opclass) : bool := cleanup_after_commitb tr.
+
 Definition check (c : case) : bool :=
   match c with
-  | CFault tr k casmode expect r s =>
-      if negb expect then result_eqb r RErr && consistent r s
-      else if casmode then consistent r s   (* a CAS mismatch may be retried *)
-      else
+  | CFault tr k casmode expect r s a =>
+      wf_trace tr &&
+      (if negb expect then result_eqb r RErr && consistent r s && negb a   (* rejected: nothing changes, nothing is deleted *)
+       else if casmode then consistent r s && (result_ok r || negb a)   (* a CAS mismatch may be retried *)
+       else
         (* a failed read is either fatal or tolerated (the code then continues as if the read had found nothing
            that matters): the observation must be what the model predicts for one of the two *)
-        matches (run_request tr k) r s || (is_read tr k && matches (run_request tr (drop_reads tr k)) r s)
-  | CMulti cont trs k rs ss =>
+        matches (run_request tr k) r s a || (is_read tr k && matches_tol (run_request tr (drop_reads tr k)) r s a))
+  | CMulti cont trs k rs ss aa =>
       let tr := concat trs in
-      multi_matches cont trs k rs ss || (is_read tr k && multi_matches cont trs (drop_reads tr k) rs ss)
+      forallb wf_trace trs &&
+      (multi_matches false cont trs k rs ss aa || (is_read tr k && multi_matches true cont trs (drop_reads tr k) rs ss aa))
   end.
 
 Definition mismatches (cs : list case) : list N := failing check cs.
